@@ -105,6 +105,11 @@ type Case struct {
 	// TimeoutMs in the generated cases, so the proxy may end the tunnel. Then the target sends a
 	// byte and the client, if that byte reaches it, answers with one.
 	IdleMs int `json:"idle_ms,omitempty"`
+	// Talk (with AgeMs): who sends during the long stretch: "" (both ends in turn), "client" (the
+	// target is silent: an upload), "target" (the client is silent: a download, an event stream).
+	// TalkPeriodMs: the pause between the sender's bytes (0 = 500), well below TimeoutMs.
+	Talk         string `json:"talk,omitempty"`
+	TalkPeriodMs int    `json:"talk_period_ms,omitempty"`
 }
 
 // runTwin drives the second tunnel and reports what it saw.
@@ -379,7 +384,14 @@ func run(c Case) kit.Verdict {
 			if seen {
 				continue
 			}
-			v2 := runOnce(c, 3*kit.T())
+			// (a stretch of periodic traffic under a short proxy timeout is repeated with
+			// both spans doubled and the period kept: a sender that was held up for longer
+			// than the timeout once does not make a finding)
+			c2 := c
+			if c.AgeMs > 0 && c.TimeoutMs > 0 {
+				c2.AgeMs, c2.TimeoutMs = 2*c.AgeMs, 2*c.TimeoutMs
+			}
+			v2 := runOnce(c2, 3*kit.T())
 			if len(v2) == 0 {
 				kit.Inconclusive("tunnel")
 				return nil
@@ -749,26 +761,43 @@ func runOnce(c Case, T time.Duration) (v kit.Verdict) {
 	}
 
 	if c.AgeMs > 0 {
-		// an old tunnel: a byte each way every 500 ms, so that it is never idle
+		// an old tunnel: a byte every 500 ms (TalkPeriodMs) each way, or from one end only
+		// (Talk) while the other is silent, so that the tunnel as such is never idle
 		// (none of these bytes belongs to the streams compared below)
 		deadline := time.Now().Add(time.Duration(c.AgeMs) * time.Millisecond)
+		period := 500
+		if c.TalkPeriodMs > 0 {
+			period = c.TalkPeriodMs
+		}
+		old := "old-tunnel"
+		switch c.Talk {
+		case "client":
+			old = "old-tunnel-only-the-client-sends"
+		case "target":
+			old = "old-tunnel-only-the-target-sends"
+		}
+		what := fmt.Sprintf("(proxy timeout %d ms, 0 = 60 s; a byte every %d ms, sender: %s)", c.TimeoutMs, period, map[string]string{"": "both ends in turn", "client": "the client only, the target is silent", "target": "the target only, the client is silent"}[c.Talk])
 		one := make([]byte, 1)
 		for k := 0; time.Now().Before(deadline); k++ {
 			conn.SetDeadline(time.Now().Add(T))
 			tc.SetDeadline(time.Now().Add(T))
-			if _, err := conn.Write([]byte{'>'}); err != nil {
-				return kit.Failf("C04/transfer/"+sh+"/old-tunnel/write-failed", "client write after %d ms: %v", k*500, err)
+			if c.Talk != "target" {
+				if _, err := conn.Write([]byte{'>'}); err != nil {
+					return kit.Failf("C04/transfer/"+sh+"/"+old+"/write-failed", "client write after %d ms %s: %v", k*period, what, err)
+				}
+				if _, err := io.ReadFull(tc, one); err != nil || one[0] != '>' {
+					return kit.Failf("C04/transfer/"+sh+"/"+old+"/timeout-client-bytes-not-delivered", "byte sent by the client %d ms after the tunnel was set up %s: target got %q, %v", k*period, what, one, err)
+				}
 			}
-			if _, err := io.ReadFull(tc, one); err != nil || one[0] != '>' {
-				return kit.Failf("C04/transfer/"+sh+"/old-tunnel/timeout-client-bytes-not-delivered", "byte sent by the client %d ms after the tunnel was set up: target got %q, %v", k*500, one, err)
+			if c.Talk != "client" {
+				if _, err := tc.Write([]byte{'<'}); err != nil {
+					return kit.Failf("C04/transfer/"+sh+"/"+old+"/write-failed", "target write after %d ms %s: %v", k*period, what, err)
+				}
+				if _, err := io.ReadFull(br, one); err != nil || one[0] != '<' {
+					return kit.Failf("C04/transfer/"+sh+"/"+old+"/timeout-target-bytes-not-delivered", "byte sent by the target %d ms after the tunnel was set up %s: client got %q, %v", k*period, what, one, err)
+				}
 			}
-			if _, err := tc.Write([]byte{'<'}); err != nil {
-				return kit.Failf("C04/transfer/"+sh+"/old-tunnel/write-failed", "target write after %d ms: %v", k*500, err)
-			}
-			if _, err := io.ReadFull(br, one); err != nil || one[0] != '<' {
-				return kit.Failf("C04/transfer/"+sh+"/old-tunnel/timeout-target-bytes-not-delivered", "byte sent by the target %d ms after the tunnel was set up: client got %q, %v", k*500, one, err)
-			}
-			time.Sleep(500 * time.Millisecond)
+			time.Sleep(time.Duration(period) * time.Millisecond)
 		}
 		conn.SetDeadline(time.Time{})
 		tc.SetDeadline(time.Time{})
@@ -1121,6 +1150,9 @@ func classes(c Case) []string {
 			out = append(out, "downstream-stays-open-after-refusal")
 		}
 	}
+	if c.AgeMs > 0 && c.Talk != "" {
+		out = append(out, "old-tunnel-only-the-"+c.Talk+"-sends")
+	}
 	if c.AgeMs > 0 {
 		out = append(out, "old-tunnel")
 		if c.TimeoutMs > 0 && c.AgeMs > c.TimeoutMs {
@@ -1144,7 +1176,7 @@ func TestTunnel(t *testing.T) {
 
 var propOld = &kit.Prop[Case]{
 	ID: "C04", Name: "old-tunnel",
-	Rule: "tunnels (direct and through the downstream proxy, plain and shaped listener) kept open and in use for longer than any set-up deadline (10.5 s quick, 31 s thorough), or for 4.5 s under a proxy timeout of 3 s (a byte each way every 500 ms: never idle), before the two streams are written and the tunnel is ended; non-trivial = always",
+	Rule: "tunnels (direct and through the downstream proxy, plain and shaped listener) kept open and in use for longer than any set-up deadline (10.5 s quick, 31 s thorough), or for 4.5 s under a proxy timeout of 3 s (a byte each way every 500 ms: never idle), or for 5 s under a proxy timeout of 2 s with one end only sending (a byte every 350 ms, the other end silent), before the two streams are written and the tunnel is ended; non-trivial = always",
 	Run:  run, NonTrivial: func(Case) bool { return true }, Classes: classes, Journal: true,
 }
 
@@ -1174,6 +1206,22 @@ func TestOldTunnel(t *testing.T) {
 		C2T: Stream{Size: 70000, Seed: 9, Writes: []int{4096}, Pause: []int{0}}, T2C: Stream{Size: 70000, Seed: 10, Writes: []int{4096}, Pause: []int{0}},
 		Early: "none", Closer: "client-half", Route: "direct", Prelude: 2, PreludePauseMs: 1000, AgeMs: 2500, TimeoutMs: 3000,
 	})
+	// one end only sends for 2.5 times the proxy's timeout (a byte every 350 ms), the other is
+	// silent: an upload, a download; every route and listener
+	for _, talk := range []string{"client", "target"} {
+		for _, route := range []string{"direct", "downstream"} {
+			for _, shaped := range []bool{false, true} {
+				c := Case{
+					C2T: Stream{Size: 70000, Seed: 15, Writes: []int{4096}, Pause: []int{0}}, T2C: Stream{Size: 70000, Seed: 16, Writes: []int{4096}, Pause: []int{0}},
+					Early: "none", Closer: "client-half", Route: route, Shaped: shaped, AgeMs: 5000, TimeoutMs: 2000, Talk: talk, TalkPeriodMs: 350,
+				}
+				if talk == "target" {
+					c.Closer = "target-half"
+				}
+				cases = append(cases, c)
+			}
+		}
+	}
 	// the dial (of the target, of the downstream proxy) returns after the proxy's timeout
 	for _, k := range []struct {
 		route       string
